@@ -157,13 +157,16 @@ theorem inline_shift_wrok {ps : List (Rebuild w)} {s2 sub : Rebuild w} {M0c Eb :
 /-- `inline` of a child that moved the pointer uncertainly. -/
 theorem inline_shift_ok {shP shC shS cS : Int} {bodyS : List (Instr w)}
     {s : Rebuild w} {ps : List (Rebuild w)} {sub : Rebuild w} {pc : List (Rebuild w)} {sub0 : Rebuild w}
-    {os os' : Orders} {s' : Rebuild w} {G : State w → Prop}
+    {os os' : Orders} {s' : Rebuild w} {G Gc : State w → Prop}
     (hr : (Opt.inline s ps sub).run os = .ok (s', os'))
     (hwf : Wf s) (hwfc : Wf sub) (hss : sub.subShift = true)
-    (hrep : ChildRep shP shC pc sub0 [] sub bodyS)
-    (hentry : ∀ σE σS : State w, SameMem shP σS σE → σS.rd cS ≠ 0#w → ∃ M0, RelAt shP sub0 pc M0 σE σS)
-    (hne : ∀ M0 σE σS, RelAt shP s ps M0 σE σS → G σS → σS.rd cS ≠ 0#w) :
-    Wf s' ∧ s'.subShift = true ∧
+    (hrep : ChildRep Gc shP shC pc sub0 [] sub bodyS)
+    (hentry : ∀ σE σS : State w, SameMem shP σS σE → σS.rd cS ≠ 0#w → Gc σS →
+      ∃ M0, RelAt shP sub0 pc M0 σE σS)
+    (hne : ∀ M0 σE σS, RelAt shP s ps M0 σE σS → G σS → σS.rd cS ≠ 0#w)
+    (hGc : ∀ M0 σE σS, RelAt shP s ps M0 σE σS → G σS → Gc σS) :
+    Wf s' ∧ s'.subShift = true ∧ s'.anal = s.anal ∧ s'.cond = s.cond ∧
+    (sub.noReturn = true → s'.noReturn = true) ∧ (sub.noReturn = false → s'.shift = sub.shift) ∧
     ∃ new, s'.insts = s.insts ++ new ∧
       ∀ M0 σE σS, RelAt shP s ps M0 σE σS → G σS →
         Sim (fun a b => StepQ (shC + shS) ps s' M0 σE (a.mov shS) b) bodyS new σS σE ∧ ¬ Bad new σE := by
@@ -212,6 +215,8 @@ theorem inline_shift_ok {shP shC shS cS : Int} {bodyS : List (Instr w)}
   have hhdr2 : SameHdr (uncertainShift s0) s2 := i2.hdr.trans c4
   have hpar2 : s2.parent = .unknown := by rw [hhdr2.1]; exact u1
   have hsub2 : s2.subShift = true := by rw [hhdr2.2.2.2.2]; exact u2
+  have hanal2 : s2.anal = s.anal := by rw [hhdr2.2.1, u9, resP.hdr.2.1]
+  have hcond2 : s2.cond = s.cond := by rw [hhdr2.2.2.2.1, u10, resP.hdr.2.2.2.1]
   -- the recorded state
   obtain ⟨hsame3, _, hwr3⟩ := writtenCalcs_eq ({ s2 with insts := s2.insts ++ sub.insts } : Rebuild w) ps (knownsOf sub)
   have hwf3 : Wf (writtenCalcs ({ s2 with insts := s2.insts ++ sub.insts } : Rebuild w) ps (knownsOf sub)) := by
@@ -243,8 +248,8 @@ theorem inline_shift_ok {shP shC shS cS : Int} {bodyS : List (Instr w)}
     intro M0 σE σS hrel hG
     have hrel1 := resP.relAt hrel
     have hm1 : SameMem shP σS (cP.foldl doCalc σE) := hrel1.sameMem hclP
-    obtain ⟨M0c, hre⟩ := hentry _ _ hm1 (hne M0 σE σS hrel hG)
-    obtain ⟨hs, hb⟩ := hrep M0c _ _ hre
+    obtain ⟨M0c, hre⟩ := hentry _ _ hm1 (hne M0 σE σS hrel hG) (hGc M0 σE σS hrel hG)
+    obtain ⟨hs, hb⟩ := hrep M0c _ _ hre (hGc M0 σE σS hrel hG)
     refine ⟨Sim.calcs_right cP (hs.mono ?_), by rw [bad_calcs_iff]; exact hb⟩
     rintro a b ⟨M0', hr', _⟩
     refine ⟨M0', hr', by rw [hp3, par_nil], ?_, pk_unknown ps M0' hpar3 hsub3⟩
@@ -254,7 +259,11 @@ theorem inline_shift_ok {shP shC shS cS : Int} {bodyS : List (Instr w)}
   · rename_i hnr
     rw [run_pure] at h4
     cases h4
-    refine ⟨⟨hwf3.pend, hwf3.writ, hwf3.rev, hwf3.revOk⟩, hsub3, cP.map Instr.calc ++ sub.insts, ?_, ?_⟩
+    refine ⟨⟨hwf3.pend, hwf3.writ, hwf3.rev, hwf3.revOk⟩, hsub3,
+      (show (writtenCalcs _ ps (knownsOf sub)).anal = _ from hsame3.2.1.trans hanal2),
+      (show (writtenCalcs _ ps (knownsOf sub)).cond = _ from hsame3.2.2.2.1.trans hcond2),
+      fun _ => rfl, fun h => absurd (hnr.symm.trans h) (by simp),
+      cP.map Instr.calc ++ sub.insts, ?_, ?_⟩
     · show (writtenCalcs _ ps (knownsOf sub)).insts = _
       rw [hinsts3, List.append_assoc]
     · intro M0 σE σS hrel hG
@@ -277,6 +286,9 @@ theorem inline_shift_ok {shP shC shS cS : Int} {bodyS : List (Instr w)}
     have hpar5 : s5.parent = .unknown := by
       rw [hsame5.1, res3.hdr.1]; exact hpar3
     refine ⟨⟨hwf5.pend, hwf5.writ, hwf5.rev, hwf5.revOk⟩, hsub5,
+      (show s5.anal = _ from (hsame5.2.1.trans res3.hdr.2.1).trans (hsame3.2.1.trans hanal2)),
+      (show s5.cond = _ from (hsame5.2.2.2.1.trans res3.hdr.2.2.2.1).trans (hsame3.2.2.2.1.trans hcond2)),
+      fun h => absurd h hnr, fun _ => rfl,
       (cP.map Instr.calc ++ sub.insts) ++ c3'.map Instr.calc, ?_, ?_⟩
     · show s5.insts = _
       rw [hsame5.2.2.2.2.2.2.2.2.1, res3.insts, hinsts3]
